@@ -127,6 +127,26 @@ func runC07(c *Ctx, r *Run) {
 				rec = true
 			}
 		})
+		if !rec {
+			// the iterative spelling: another method of the handler calls it in a loop that continues while it reports progress
+			for i := 0; i < H.NumMethods(); i++ {
+				m := c.Prog.FuncValue(H.Method(i))
+				if m == nil || m == fin {
+					continue
+				}
+				allInstrs(m, func(in ssa.Instruction) {
+					call, isCall := in.(*ssa.Call)
+					if !isCall || call.Call.StaticCallee() != fin || !blockInLoop(call.Block()) {
+						return
+					}
+					for _, ref := range *call.Referrers() {
+						if _, isIf := ref.(*ssa.If); isIf {
+							rec = true
+						}
+					}
+				})
+			}
+		}
 		r.Check("OB-Q1", "pkg/protocol.(*MultiHandler).finalize|re-examines-after-replay", c.Pos(fin.Pos()), rec, "after the replay finalize checks again whether the new round is complete", "finalize does not re-enter after replaying the queue: a round completed by early messages never advances")
 	}
 
